@@ -58,6 +58,7 @@ type Exec struct {
 	usedExterns map[string]bool
 	callsOf     map[string]map[string]bool // function under contract -> contracts of functions under contract (and lemmas) its proof applies
 	usedRelies  map[string]bool
+	assumedBy   map[string]map[string]bool // function under contract -> extern contracts / relies / defines its proof assumes
 	paramVals   map[string][]*Val
 	pdomCache   map[*ssa.Function]map[*ssa.BasicBlock]*ssa.BasicBlock
 	noMerge     bool
@@ -67,7 +68,7 @@ type Exec struct {
 }
 
 func newExec(ld *Loaded) *Exec {
-	return &Exec{ld: ld, ct: ld.ct, tags: map[string]int{}, preludeSeen: map[string]bool{}, loops: map[*ssa.Function]*loopInfo{}, maxPaths: 4000, oblCount: map[string]int{}, usedExterns: map[string]bool{}, usedRelies: map[string]bool{}, callsOf: map[string]map[string]bool{}, paramVals: map[string][]*Val{}, pdomCache: map[*ssa.Function]map[*ssa.BasicBlock]*ssa.BasicBlock{}, opaqueReads: map[string]*opaqueRead{}}
+	return &Exec{ld: ld, ct: ld.ct, tags: map[string]int{}, preludeSeen: map[string]bool{}, loops: map[*ssa.Function]*loopInfo{}, maxPaths: 4000, oblCount: map[string]int{}, usedExterns: map[string]bool{}, usedRelies: map[string]bool{}, callsOf: map[string]map[string]bool{}, assumedBy: map[string]map[string]bool{}, paramVals: map[string][]*Val{}, pdomCache: map[*ssa.Function]map[*ssa.BasicBlock]*ssa.BasicBlock{}, opaqueReads: map[string]*opaqueRead{}}
 }
 
 func (ex *Exec) fail(f string, a ...any) {
@@ -122,6 +123,13 @@ func canonType(t types.Type) types.Type {
 		return types.NewTuple(vs...)
 	}
 	return types.NewSignatureType(nil, nil, nil, strip(sg.Params()), strip(sg.Results()), sg.Variadic())
+}
+
+func (ex *Exec) noteAssumed(what string) {
+	if ex.assumedBy[ex.topKey] == nil {
+		ex.assumedBy[ex.topKey] = map[string]bool{}
+	}
+	ex.assumedBy[ex.topKey][what] = true
 }
 
 func (ex *Exec) tagOf(t types.Type) Term {
@@ -889,6 +897,7 @@ func (ex *Exec) checkExit(st *State, results []*Val) {
 		if e.Kind == "defines" {
 			// functional abstraction of a pure deterministic function: assumed at call sites, not checked here
 			ex.usedExterns["determinism of "+c.Key+": "+e.Src] = true
+			ex.noteAssumed("assumed contract (extern/trusted): determinism of " + c.Key + ": " + e.Src)
 			continue
 		}
 		ex.obligeClause(st, env, "ensures", clauseLabel(e, i), e, ex.clauseTags(e, c.Tags), token.NoPos)
